@@ -134,6 +134,38 @@ func scenarioSpecs(seed int64) (out []TreeSpec) {
 			12: {"miner:2"},
 		}, 1, 1, 2)
 	}
+	// F: pinned expiration order.  The world's managers are created with
+	// chain.WithExpiringContractOrder; three v1 contracts share one window end, every persona is
+	// renter of one and host of another, so each receives missed-proof outputs of two contracts.
+	// Main chain: one contract is resolved by a storage proof, the other two expire together (pinned
+	// order of 2).  Fork: all three expire together (pinned order of 3).  The missed payouts are
+	// spent afterwards (in the mid regime by v2 transactions carrying their proofs).
+	pinned := []struct{ reg, pin string }{{"v1", "reverse"}, {"mid", "rotate"}}
+	if hx.EnvInt("VERIF_PER_REGIME", 2) > 2 {
+		pinned = append(pinned, struct{ reg, pin string }{"v1", "linear"}, struct{ reg, pin string }{"mid", "reverse"})
+	}
+	for i, c := range pinned {
+		v := "1"
+		if c.reg == "mid" {
+			v = "2"
+		}
+		mk("pinned-expiry-"+c.pin, c.reg, int64(60+i), []int{1, 2, 3, 4, 5, 6, 7, 3, 9, 10, 11, 12, 13}, map[int][]string{
+			2:  {"fc1:0,1,2", "fc1:1,2,2", "fc1:2,0,2", "miner:1"},
+			3:  {"pay1:0,2", "miner:2"},
+			4:  {"sp1", "pay" + v + ":1,0", "miner:0"},
+			5:  {"pay" + v + ":2,1", "miner:1"},
+			6:  {"miner:2"}, // height 5: the two unresolved contracts expire
+			7:  {"pay" + v + ":0,1", "miner:0"},
+			8:  {"pay" + v + ":1,2", "pay" + v + ":2,0", "pay" + v + ":0,2", "miner:1"},
+			9:  {"pay" + v + ":1,2", "miner:0"},
+			10: {"pay" + v + ":0,1", "miner:2"},
+			11: {"miner:1"}, // height 5 on the fork: all three expire
+			12: {"pay" + v + ":2,0", "miner:0"},
+			13: {"pay" + v + ":0,1", "pay" + v + ":1,2", "miner:2"},
+			14: {"pay" + v + ":1,0", "pay" + v + ":2,1", "pay" + v + ":0,2", "miner:1"},
+		}, 1, i%3, 3)
+		out[len(out)-1].Pin = c.pin
+	}
 	return out
 }
 
@@ -145,6 +177,9 @@ func randomSmallSpecs(seed int64, perRegime, blocks int) (out []TreeSpec) {
 			out = append(out, TreeSpec{Name: fmt.Sprintf("random/%s/%d", reg, k), Seed: seed*1000 + 100 + int64(ri*50+k), Allow: r[0], Require: r[1], Final: r[2],
 				FoundationHeight: uint64(1 + k%3), FoundationTo: k % 3, SubsidyEvery: uint64(2 + k%3),
 				Blocks: blocks - 1 - k%2, Warmup: 1 + k%2, MaxLeaves: 3, BadBlocks: 0, OpsPerBlk: 3, ForkProb: 0.45})
+			if reg != "v2" && k%2 == 1 {
+				out[len(out)-1].Pin = []string{"reverse", "rotate", "linear"}[(k/2)%3]
+			}
 		}
 	}
 	return out
@@ -217,6 +252,10 @@ func TestGenTrees(t *testing.T) {
 			res.Eval(fmt.Sprintf("%s/%d", sp.Name, p))
 		}
 		res.Count("real_trees", 1)
+		res.Count("pinned_blocks", tr.Pinned)
+		if sp.Pin != "" {
+			res.Count("pinned_worlds", 1)
+		}
 		res.Count("blocks", len(tr.Nodes))
 		res.Count("valid_blocks", valid)
 		if si == 0 {
@@ -245,7 +284,7 @@ type stateJ struct {
 	T    int      `json:"t"`
 	Mem  int      `json:"mem"`
 	WTip int      `json:"wTip"`
-	Utxo [][3]int `json:"utxo"`
+	Utxo [][4]int `json:"utxo"`
 	Ev   [][4]int `json:"ev"`
 	Ok   bool     `json:"ok"`
 }
@@ -275,7 +314,7 @@ type replayIn struct {
 }
 
 func normProj(p Proj) (string, string) {
-	u := append([][3]int{}, p.Utxo...)
+	u := append([][4]int{}, p.Utxo...)
 	e := append([][4]int{}, p.Ev...)
 	sort.Slice(u, func(i, j int) bool { return lessInts(u[i][:], u[j][:]) })
 	sort.Slice(e, func(i, j int) bool { return lessInts(e[i][:], e[j][:]) })
@@ -505,7 +544,7 @@ type tev struct {
 	Rus  []int    `json:"rus"`
 	Aus  []int    `json:"aus"`
 	WTip int      `json:"wtip"`
-	Utxo [][3]int `json:"utxo"`
+	Utxo [][4]int `json:"utxo"`
 	Ev   [][4]int `json:"ev"`
 }
 
@@ -539,7 +578,7 @@ func runHistory(res *hx.Result, hs histSpec, tw *hx.TraceWriter, trees *[]TreeJS
 				e.Aus = []int{}
 			}
 			if e.Utxo == nil {
-				e.Utxo = [][3]int{}
+				e.Utxo = [][4]int{}
 			}
 			if e.Ev == nil {
 				e.Ev = [][4]int{}
@@ -699,6 +738,10 @@ func runHistory(res *hx.Result, hs histSpec, tw *hx.TraceWriter, trees *[]TreeJS
 		mm("driver:c06:no-catchup", "the wallet did not reach the tip after 400 chunks")
 	}
 	res.Count("store_tip_differs_from_stream_position", w.StoreTipDiffers)
+	res.Count("pinned_blocks", tr.Pinned)
+	if hs.Tree.Pin != "" {
+		res.Count("pinned_worlds", 1)
+	}
 	coverage(res, o, tr)
 }
 
@@ -734,6 +777,10 @@ func TestDriver(t *testing.T) {
 		ts := TreeSpec{Name: fmt.Sprintf("hist-%d", seed), Seed: seed, Allow: reg[0], Require: reg[1], Final: reg[2],
 			FoundationHeight: uint64(1 + rng.Intn(6)), FoundationTo: rng.Intn(3), SubsidyEvery: uint64(3 + rng.Intn(5)),
 			Blocks: minB + rng.Intn(maxB-minB+1), Warmup: 2, MaxLeaves: 3 + rng.Intn(2), BadBlocks: 4, OpsPerBlk: 3, ForkProb: 0.2 + 0.15*rng.Float64()}
+		if reg[1] > 1 {
+			// worlds with v1 contracts: every second one runs its managers with a pinned expiration order
+			ts.Pin = []string{"", "reverse", "", "rotate", "", "linear"}[rng.Intn(6)]
+		}
 		for p := 0; p < 3; p++ {
 			work[n%shards] = append(work[n%shards], histSpec{Tree: ts, Persona: p, Sched: seed*7 + int64(p)})
 			n++
